@@ -28,8 +28,8 @@ type monitor struct {
 func main() {
 	rig.Quiet()
 	run := ev.New("C16", ev.ArgTier(), "exploration")
-	run.Rule("one evaluation = one configuration drawn from PRNG(VERIF_SEED, index): RPC (3 of 4): service-provider list 0-4, client-constructor list 0-4, processor-constructor list 0-4, processor.AddMiddleware 0-2 calls; scope (1 of 4): publisher scope-provider 0-4, publisher constructor 0-4, subscriber scope-provider 0-4, subscriber constructor 0-4, errorable or plain subscriber; every middleware observing, or (70% of configurations) each drawn from observe / rewrite an argument / rewrite the result / annotate, inject or clear the error; slices handed over with or without spare capacity. Each RPC configuration makes 17 calls (all 10 methods of Foo incl. inherited basePing/echoThing, oneway fire, void nothing, declared Oops/ApiError and undeclared errors, the latter also with reply texts of 257 and ~2000 bytes); error-injecting / annotating middleware use texts of 0-70000 bytes (40, 200, 256, 257, 300, 2000, 70000); each scope configuration publishes Sent, Num, Ping twice (callback ok / failing). distinct = (kind, list lengths, set of rewrite kinds, call). Then multi-step histories (quick 48, thorough 1200; PRNG(VERIF_SEED, index)): a list fetched with GetMiddleware() from a base provider whose list has spare capacity - or a caller-built slice with spare capacity - passed as constructor middleware to objects A and B built from two different providers (clients + processors, or publishers + subscribers), first call / Subscribe only after both constructions; and elements of a GetMiddleware() result overwritten with a stub before a fresh construction; expected traces folded from the lists as declared at construction time. Then 2 same-operation + 1 other-operation subscriptions through ONE FNatsSubscriberFactoryBuilder-built factory on an embedded broker (quick 4, thorough 60 rounds x 15-20 messages), each delivery judged against its own subscription's constructor middleware. Middleware may also replace the FContext (clone with another timeout and one more header); the oracle tracks timeout and those headers through every layer and across the wire. Error-injecting middleware may also set the error IN PLACE with Results.SetError on the slice they got. Then error replies next to a >1 MiB response header on the NATS server leg (the error the server side produced must reach client middleware and caller unchanged). Then first-call races (quick 80, thorough 1000 brand-new client+processor pairs on the HTTP and pipe legs, twice as many publisher+subscriber pairs; full-length lists): 8 goroutines released together make the very first calls (same method / operation), 3 calls each, then 3 sequential calls. Then a concurrent phase (quick 3, thorough 12 rounds): 12 goroutines x hundreds/thousands of calls on ONE client+processor (HTTP leg: overlapping on both sides; pipe leg: on the client) and ONE publisher+subscriber (in-process loopback), every call carrying a token in an argument and in the correlation id, traces kept per token, each call judged on its own values (no order across calls). Then responses lost AFTER the server side ran (quick 8, thorough 160 configurations of random lists on the HTTP leg, protocols in turn, one client on one transport with its own keep-alive pool): for a marked call the server runs the processor and then the response does not arrive - connection closed / reset before the response, closed inside the response headers / inside the body, a gateway 502 in its place, or withheld until the caller gives up - on a new or a reused keep-alive connection, the fault applying to the first arrival of that call's frame only or to every arrival (keyed on the correlation id in the received frame, not on timing), over 8 methods incl. oneway and void; for such a call only AT MOST ONCE per middleware and handler is asserted, whatever the caller got; the ordinary calls before and after it on the same transport are judged completely (exactly once, own values)")
-	run.Assume("trusted: the tracing middleware and its pure rewrite functions (shared by the real middleware and the oracle's fold), the stub handler harness/e2e, the in-process loopback scope transports (frame minus 4-byte size handed synchronously to the subscribed callbacks, as the NATS/STOMP subscriber transports do), FSimpleServer handling the requests of one connection one after the other (used as barrier after the oneway call); values are compared by value (JSON rendering + error class), never by pointer; the lossy HTTP server of the response-lost phase (the runtime's NewFrugalHandlerFunc run into a recorder, then the fault applied to the hijacked connection) and Go's net/http client not re-sending a POST whose request was written")
+	run.Rule("one evaluation = one configuration drawn from PRNG(VERIF_SEED, index): RPC (3 of 4): service-provider list 0-4, client-constructor list 0-4, processor-constructor list 0-4, processor.AddMiddleware 0-2 calls; scope (1 of 4): publisher scope-provider 0-4, publisher constructor 0-4, subscriber scope-provider 0-4, subscriber constructor 0-4, errorable or plain subscriber; every middleware observing, or (70% of configurations) each drawn from observe / rewrite an argument / rewrite the result / annotate, inject or clear the error; slices handed over with or without spare capacity. Each RPC configuration makes 17 calls (all 10 methods of Foo incl. inherited basePing/echoThing, oneway fire, void nothing, declared Oops/ApiError and undeclared errors, the latter also with reply texts of 257 and ~2000 bytes); error-injecting / annotating middleware use texts of 0-70000 bytes (40, 200, 256, 257, 300, 2000, 70000); each scope configuration publishes Sent, Num, Ping twice (callback ok / failing). distinct = (kind, list lengths, set of rewrite kinds, call). Then multi-step histories (quick 48, thorough 1200; PRNG(VERIF_SEED, index)): a list fetched with GetMiddleware() from a base provider whose list has spare capacity - or a caller-built slice with spare capacity - passed as constructor middleware to objects A and B built from two different providers (clients + processors, or publishers + subscribers), first call / Subscribe only after both constructions; and elements of a GetMiddleware() result overwritten with a stub before a fresh construction; expected traces folded from the lists as declared at construction time. Then 2 same-operation + 1 other-operation subscriptions through ONE FNatsSubscriberFactoryBuilder-built factory on an embedded broker (quick 4, thorough 60 rounds x 15-20 messages), each delivery judged against its own subscription's constructor middleware. Middleware may also replace the FContext (clone with another timeout and one more header); the oracle tracks timeout and those headers through every layer and across the wire. Error-injecting middleware may also set the error IN PLACE with Results.SetError on the slice they got. Then error replies next to a >1 MiB response header on the NATS server leg (the error the server side produced must reach client middleware and caller unchanged). Then first-call races (quick 80, thorough 1000 brand-new client+processor pairs on the HTTP and pipe legs, twice as many publisher+subscriber pairs; full-length lists): 8 goroutines released together make the very first calls (same method / operation), 3 calls each, then 3 sequential calls. Then a concurrent phase (quick 3, thorough 12 rounds): 12 goroutines x hundreds/thousands of calls on ONE client+processor (HTTP leg: overlapping on both sides; pipe leg: on the client) and ONE publisher+subscriber (in-process loopback), every call carrying a token in an argument and in the correlation id, traces kept per token, each call judged on its own values (no order across calls). Then responses lost AFTER the server side ran (quick 8, thorough 160 configurations of random lists on the HTTP leg, protocols in turn, one client on one transport with its own keep-alive pool): for a marked call the server runs the processor and then the response does not arrive - connection closed / reset before the response, closed inside the response headers / inside the body, a gateway 502 in its place, or withheld until the caller gives up - on a new or a reused keep-alive connection, the fault applying to the first arrival of that call's frame only or to every arrival (keyed on the correlation id in the received frame, not on timing), over 8 methods incl. oneway and void; for such a call only AT MOST ONCE per middleware and handler is asserted, whatever the caller got; the ordinary calls before and after it on the same transport are judged completely (exactly once, own values). Then calls made after a call that timed out while its WRITE was stalled (quick 6, thorough 60 configurations of random lists x 4 rounds, protocols in turn; stream leg: adapter transport over an unbuffered pipe whose relay stops reading the client->server direction for a while): one sequential caller on one client makes call A (8 methods incl. oneway and void; timeout 1 s or 250 ms) whose write stalls and which times out, then call B (same method 3 of 4 - a message of the same length - or another one) whose frame queues behind A's, then the relay resumes so that the stalled write completes, then a barrier call C; B and C are judged completely (exactly once, own values, own results), A at most once per layer; the stall is the relay's acknowledged parking and 'handed to the transport' is a count of Write entries, never timing")
+	run.Assume("trusted: the tracing middleware and its pure rewrite functions (shared by the real middleware and the oracle's fold), the stub handler harness/e2e, the in-process loopback scope transports (frame minus 4-byte size handed synchronously to the subscribed callbacks, as the NATS/STOMP subscriber transports do), FSimpleServer handling the requests of one connection one after the other (used as barrier after the oneway call); values are compared by value (JSON rendering + error class), never by pointer; the lossy HTTP server of the response-lost phase (the runtime's NewFrugalHandlerFunc run into a recorder, then the fault applied to the hijacked connection) and Go's net/http client not re-sending a POST whose request was written; the pausing relay of the stalled-write phase (forwards every byte it reads unchanged and in order; parked = reads nothing) and net.Pipe (a Write hands over the bytes its slice holds at the moment the peer reads)")
 	run.Set("declared_order", "client side, outermost first: service-provider list last..first, then client-constructor list last..first; server side: AddMiddleware calls last..first, then processor-constructor list last..first, then the handler; publisher: scope-provider list last..first, then constructor list last..first; subscriber likewise. Method names compared with the first letter lower-cased (client-side middleware see the internal lower-case method)")
 	mon := &monitor{run: run, j: &judge{run: run}}
 
@@ -109,9 +109,22 @@ func main() {
 			go func() {
 				defer wg.Done()
 				for i := range ljobs {
-					mon.runResponseLost(i)
+					if i >= 100000 {
+						mon.runStalledWrite(i-100000, 4)
+					} else {
+						mon.runResponseLost(i)
+					}
 				}
 			}()
+		}
+		// calls after a call that timed out with its write stalled (stream
+		// leg): mostly waiting, so they share the pool (and go first)
+		ns := 6
+		if run.Thorough() {
+			ns = 60
+		}
+		for i := 0; i < ns; i++ {
+			ljobs <- 100000 + i
 		}
 		for i := 0; i < nl; i++ {
 			ljobs <- i
